@@ -11,6 +11,7 @@ pub trait SampleRange<T> { fn vk_sample(self) -> T; }
 impl SampleRange<usize> for Range<usize> {
     fn vk_sample(self) -> usize {
         assert!(self.start < self.end, "cannot sample empty range");
+        if self.end - self.start == 1 { return self.start; }   // keep the draw concrete when there is no choice
         self.start + vs::any_usize_below(self.end - self.start)
     }
 }
